@@ -42,7 +42,8 @@ CANDIDATES = ["dist-restraint-by-index-ignores-name", "rw-restriction-last-line-
 
 TOP_HEAD = ("[ defaults ]\n1 1 no 1.0 1.0\n[ atomtypes ]\nP 72.0 0.0 A 0.1 0.1\n"
             "[ nonbond_params ]\nP P 1 0.1 0.1\n")
-RESNAMES = ["RA", "RB", "RC"]
+# names that contain each other occur in real libraries (PEO / PEOH, DA / DA5): keep such pairs in the pool
+RESNAMES = ["RA", "RB", "RC", "RAB", "A"]
 ATOMNAMES = ["X", "Y", "Z", "W"]
 
 
